@@ -9,7 +9,7 @@ Local Open Scope string_scope.
 (* The full statement (decode/encode half), not proved in general: *)
 Definition C19_roundtrip_statement (scope : json -> bool) : Prop :=
   forall j, valid_swagger j = true -> scope j = true ->
-    exists j', norm gen_env j (TNamed "Swagger") = ROk j' /\ valid_swagger j' = true.
+    exists j', norm gen_env false j (TNamed "Swagger") = ROk j' /\ valid_swagger j' = true.
 
 (* What decode/encode does to a normal object is to drop members (empty optional ones) — and dropping ANY
    member that is not required keeps every closed-object kind of the meta-schema valid: *)
@@ -45,7 +45,7 @@ Print Assumptions C19_body_excludes_non_body.
 Example C19_refuted_required_empty :
   let doc := JObj [("swagger", JStr "2.0"); ("info", JObj [("title", JStr ""); ("version", JStr "1")]); ("paths", JObj [])] in
   valid_swagger doc = true /\
-  match norm gen_env doc (TNamed "Swagger") with ROk j' => valid_swagger j' = false | _ => False end.
+  match norm gen_env false doc (TNamed "Swagger") with ROk j' => valid_swagger j' = false | _ => False end.
 Proof. vm_compute. split; reflexivity. Qed.
 
 (* and a document without such members stays valid, members re-ordered and empty optional ones dropped *)
@@ -54,5 +54,5 @@ Example C19_example :
                                                                 ("summary", JStr ""); ("tags", JArr [])])])]);
                    ("info", JObj [("version", JStr "1"); ("title", JStr "t"); ("description", JStr "")]); ("swagger", JStr "2.0")] in
   valid_swagger doc = true /\
-  match norm gen_env doc (TNamed "Swagger") with ROk j' => valid_swagger j' = true | _ => False end.
+  match norm gen_env false doc (TNamed "Swagger") with ROk j' => valid_swagger j' = true | _ => False end.
 Proof. vm_compute. split; reflexivity. Qed.
